@@ -20,6 +20,12 @@ PINS = {
     "C18_required_field_refuted": "parse_toks (tokenize",
     "C18_print_tokens_partial": "forall t, lex_ty t = true -> tokenize (pr_ty t ++ \";\") = (toks_ty t false ++ [TP PTerm])%list",
     "C18_imports_permuted": "forall a, Permutation (s_imports (canon a)) (s_imports a)",
+    "C18_print_tokens": "forall a, printable a -> tokenize (print a) = toks a",
+    "C18_format_preserves": "forall a, wf_ast a -> printable a -> parse_toks (tokenize (print a)) = Some (canon a)",
+    "C18_format_idempotent_chars": "forall a, wf_ast a -> printable a -> option_map print (parse_toks (tokenize (print a))) = Some (print a)",
+    "C18_printable_canon": "forall a, printable a -> printable (canon a)",
+    "C18_parse_printable": "forall src a, parse_toks (tokenize src) = Some a -> printable a",
+    "C18_format_roundtrip": "forall src a, parse_toks (tokenize src) = Some a -> no_bare_required a -> parse_toks (tokenize (print a)) = Some (canon a) /\\ option_map print (parse_toks (tokenize (print a))) = Some (print a)",
 }
 MODEL_FILES = ["Schema/Printer.v", "Schema/Lexer.v", "Schema/Parser.v", "Schema/Span.v"]
 SIZES = {"quick": (8000, 8), "thorough": (160000, 16)}
@@ -279,8 +285,8 @@ def run(tier, seed):
         "modelled, not verified: parser/src/fmt.rs as Schema/Printer.v (print, toks), grammar.pest + ast/*.rs as Schema/Lexer.v "
         "(tokenize) and Schema/Parser.v (parse_toks); pest itself (PEG engine, Unicode tables) is not modelled: the model lexer "
         "classifies ASCII exactly, White_Space exactly, and a small table of non-ASCII identifier characters, and abstains elsewhere",
-        "partial: the character level (tokenize (print a) = toks a) is proved for the parts listed in design/C18.md and executed "
-        "on every generated schema; diagnostics (validation passes) are compared on the real code only",
+        "the character level (tokenize (print a) = toks a for every printable a, and every parsed schema is printable) is proved "
+        "on the model and also executed on every generated schema; diagnostics (validation passes) are compared on the real code only",
     ]
     if os.path.exists(os.path.join(core.COQ, PROPS_FILE)):
         proof_side(o, PROPS_FILE, PINS)
@@ -290,7 +296,9 @@ def run(tier, seed):
     o.coverage["explanation"] = ("token level proved on the model for all well-formed ASTs (nothing dropped, duplicated or reordered "
                                  "except the import sort; canonical form idempotent; re-formatting emits the same text); the one "
                                  "well-formedness condition that valid sources can violate (a non-required field called `required`) "
-                                 "is a refuted lemma with a witness = the reported defect; character level partly proved, executed")
+                                 "is a refuted lemma with a witness = the reported defect; character level proved (C18_print_tokens, "
+                                 "C18_parse_printable, C18_format_roundtrip: for every source text that parses, under that one "
+                                 "condition, the formatted text parses to the same schema and formats to the same text) and executed")
     n, shards = SIZES[tier]
     correspondence(o, n, shards, seed)
     return finish(o)
